@@ -356,6 +356,64 @@ def gen_defect_cases(rng, n, big):
     return lines, stats
 
 
+def gen_lookup_cases(rng, n, big):
+    lines, stats = [], {'schemas': 0, 'number_keys': 0, 'name_keys': 0, 'tables': 0}
+    while stats['number_keys'] + stats['name_keys'] < n:
+        sch = rand_schema(rng, big=True, max_fields=12)
+        # names in every relation to each other: prefixes, extensions, case, shared stems
+        for m in sch.msgs:
+            stems = ['a', 'ab', 'abc', 'abd', 'b', 'B', 'a_b', 'a1', 'z', 'zz', 'aB', 'Ab', 'a-b', 'a.b', 'value', 'value2', 'val']
+            used = set()
+            for f in m.fields:
+                nm = rng.choice(stems) + rng.choice(['', '', str(f.id), 'x'])
+                while nm in used:
+                    nm += rng.choice('abxyz01_')
+                used.add(nm)
+                f.name = nm
+        lines += sch.lines()
+        stats['schemas'] += 1
+        for ty, m in enumerate(sch.msgs):
+            ids = [f.id for f in m.fields]
+            keys = set(ids) | {i + 1 for i in ids} | {i - 1 for i in ids} | {0, 1, 2 ** 29 - 1, 2 ** 29, 2 ** 31 - 1, 2 ** 31, 2 ** 32 - 1}
+            keys |= {rng.getrandbits(32) for _ in range(3)}
+            for k in sorted(x for x in keys if 0 <= x < 2 ** 32):
+                lines.append('lookup fnum %d %d' % (ty, k))
+                stats['number_keys'] += 1
+            names = [f.name for f in m.fields]
+            cand = set(names)
+            for nm in names:
+                cand |= {nm[:-1], nm + 'a', nm + '0', nm.upper(), nm.lower(), nm[:1], nm + nm}
+            cand |= {'a', 'b', 'zzzz', 'A', '_', '0'}
+            for nm in sorted(c for c in cand if c and ' ' not in c):
+                lines.append('lookup fname %d %s' % (ty, nm))
+                stats['name_keys'] += 1
+    # raw range tables incl. negative / extreme values (enum value tables)
+    for _ in range(max(10, n // 20)):
+        nvals = rng.choice([1, 2, 3, 5, 9, 20, 60])
+        vals = set()
+        while len(vals) < nvals:
+            r = rng.random()
+            if r < 0.3:
+                vals.add(rng.choice([-2 ** 31, -2 ** 31 + 1, -1, 0, 1, 2 ** 31 - 2, 2 ** 31 - 1]))
+            elif r < 0.7:
+                base = rng.randrange(-50, 50)
+                for d in range(rng.randrange(1, 4)):
+                    vals.add(base + d)
+            else:
+                vals.add(rng.randrange(-2 ** 31, 2 ** 31))
+        vals = sorted(vals)
+        ranges = []
+        for i, v in enumerate(vals):
+            if i == 0 or v != vals[i - 1] + 1:
+                ranges.append((v, i))
+        keys = set(vals) | {v + 1 for v in vals} | {v - 1 for v in vals} | {0, 1, -1, 2 ** 31 - 1, -2 ** 31}
+        keys = sorted(k for k in keys if -2 ** 31 <= k < 2 ** 31)
+        lines.append('ranges %d %s 0 %d %s #vals=%s' % (len(ranges), ' '.join('%d %d' % r for r in ranges), len(vals),
+                                                        ' '.join(map(str, keys)), ','.join(map(str, vals))))
+        stats['tables'] += 1
+    return lines, stats
+
+
 def u_bounds(w):
     return pbgen.B32 if w == 32 else pbgen.B64
 
@@ -472,6 +530,22 @@ def main():
         lines, stats = gen_compat_cases(rng, n, big)
     elif kind == 'defect':
         lines, stats = gen_defect_cases(rng, n, big)
+    elif kind == 'lookup':
+        lines, stats = gen_lookup_cases(rng, n, big)
+    elif kind == 'mt':
+        # ONE schema, many valid / re-encoded / mutated inputs: the multi-threaded workload (C17)
+        sch = rand_schema(rng, nmsgs=3, big=big)
+        lines = sch.lines()
+        stats = {'inputs': 0}
+        for _ in range(n):
+            ty = rng.randrange(len(sch.msgs))
+            m = rand_msg(rng, sch, ty)
+            b = encode(sch, m, rng, {'pad': rng.random() < 0.5, 'shuffle': rng.random() < 0.5, 'split_msg': rng.random() < 0.3,
+                                     'flip_packed': rng.random() < 0.3})
+            if rng.random() < 0.15:
+                b = mutate(rng, b)
+            lines.append('unpack %d X%s' % (ty, b.hex()))
+            stats['inputs'] += 1
     elif kind == 'alloc':
         lines, stats = gen_alloc_cases(rng, n, big, False)
     elif kind == 'fault':
